@@ -164,9 +164,12 @@ def _interp_root(need):
         r, rg = _interp_recv(g, need)
         if r is None:
             return None
+        k = {}
+        if g.rng.random() < 0.3:
+            k = {"max_iter": g.iv(g.rng.choice([25, 40, 100, 1000]))}    # documented parameter
         if g.rng.random() < 0.7:
-            return r, [], {}
-        return r, [g.fv(rg[0]), g.fv(rg[1])], {}
+            return r, [], k
+        return r, [g.fv(rg[0]), g.fv(rg[1])], k
     return gen
 
 
@@ -905,3 +908,26 @@ add('Sun.get_equinox_solstice#bad', 'call', SU + '.get_equinox_solstice', 'pure'
 add('Epoch.rise_set#bad', 'meth', 'rise_set', 'pure',
     lambda g: (g.ep(-1999, 3999), [g.angv(g.rng.choice([-1, 1]) * g.rng.uniform(66.6, 89.0)), g.ang(-180, 180)], {}),
     0.2, 100, 'Epoch')
+
+
+# ------------------------------------------------------------------ static methods reached THROUGH AN INSTANCE
+# (e.leap_seconds(1983, 7), a.reduce_deg(400): legal Python for a staticmethod, and the only way to notice
+# that an object's own attributes shadow a method of its class)
+def _via_instance(base, cls_kind, recv_gen):
+    e0 = ENTRIES[base]
+    attr = e0.target.split('.')[-1]
+
+    def gen(g):
+        r = e0.gen(g)
+        if r is None:
+            return None
+        return recv_gen(g), r[1], r[2]
+    add(base + '@inst', 'meth', attr, 'pure', gen, 0.12, e0.cost, e0.group)
+
+
+for _n in ('Epoch.check_input_date', 'Epoch.is_julian', 'Epoch.get_month', 'Epoch.is_leap', 'Epoch.get_doy',
+           'Epoch.doy2date', 'Epoch.leap_seconds', 'Epoch.get_last_leap_second', 'Epoch.utc2local', 'Epoch.easter',
+           'Epoch.jewish_pesach', 'Epoch.moslem2gregorian', 'Epoch.gregorian2moslem', 'Epoch.tt2ut'):
+    _via_instance(_n, 'Epoch', lambda g: g.ep(-3999, 4999))
+for _n in ('Angle.reduce_deg', 'Angle.reduce_dms', 'Angle.deg2dms', 'Angle.dms2deg'):
+    _via_instance(_n, 'Angle', lambda g: g.ang(-360, 360))
